@@ -57,14 +57,24 @@ def disjoint(a, b):
     return ForAll([x], Not(And(Select(a.z, x), Select(b.z, x))))
 
 
+def pointwise(z, et, x):
+    """membership of x in the set term z, with union / intersection / difference at the top unfolded (gives the solver usable triggers)"""
+    if z3.is_app(z) and z.num_args() == 2:
+        for nm, mk in (('union', lambda p, q: Or(p, q)), ('inter', lambda p, q: And(p, q)), ('diff', lambda p, q: And(p, Not(q)))):
+            f = _fns.get((nm, et.key))
+            if f is not None and z.decl().eq(f):
+                return mk(pointwise(z.arg(0), et, x), pointwise(z.arg(1), et, x))
+    return Select(z, x)
+
+
 def nonempty(a):
     x = fresh_z('x', sort_of(a.t.args[0]))
-    return z3.Exists([x], Select(a.z, x))
+    return z3.Exists([x], pointwise(a.z, a.t.args[0], x))
 
 
 def is_empty(a):
     x = fresh_z('x', sort_of(a.t.args[0]))
-    return ForAll([x], Not(Select(a.z, x)))
+    return ForAll([x], Not(pointwise(a.z, a.t.args[0], x)))
 
 
 def _fin_fn(et):
@@ -97,6 +107,9 @@ def card(a):
         GEN_AXIOMS.append(('card-empty[%s]' % et.key, f(z3.K(E, z3.BoolVal(False))) == 0))
         GEN_AXIOMS.append(('card-add[%s]' % et.key, ForAll([A, x], Implies(fn(A), f(z3.Store(A, x, z3.BoolVal(True))) == z3.If(Select(A, x), f(A), f(A) + 1)))))
         GEN_AXIOMS.append(('card-remove[%s]' % et.key, ForAll([A, x], Implies(fn(A), f(z3.Store(A, x, z3.BoolVal(False))) == z3.If(Select(A, x), f(A) - 1, f(A))))))
+        # consequence of card-remove and card-nonneg (proved on every run): a finite set with an element has at least one
+        GEN_LEMMAS.append('card-pos[%s]' % et.key)
+        GEN_AXIOMS.append(('card-pos[%s]' % et.key, ForAll([A, x], Implies(And(fn(A), Select(A, x)), f(A) >= 1), patterns=[z3.MultiPattern(f(A), Select(A, x))])))
         return f
     return SV(INT, _fn('card', et, mk)(a.z))
 
